@@ -2,11 +2,13 @@ package checks
 
 import (
 	"bytes"
+	"encoding/binary"
 	"errors"
 	"fmt"
 	"time"
 
 	"p9verif/memfs"
+	"p9verif/vconn"
 
 	"github.com/hugelgupf/p9/linux"
 	"github.com/hugelgupf/p9/p9"
@@ -33,11 +35,23 @@ func runClientPairCase(c clientPairCase) *fail {
 	ib.WriteAt(db, 0)
 	fs.Tree.Symlink(fs.Tree.Root, "la", "target-of-la", 0, 0)
 	fs.Tree.Symlink(fs.Tree.Root, "lb", "the-other-target/which/is/longer", 0, 0)
-	cl, closeFn, err := dialPipe(p9.NewServer(fs))
+	// (own pipe: the replies of a round are kept back until both have been written,
+	// so that the client finds them back to back)
+	ca, cb := vconn.Pipe()
+	srvDone := make(chan struct{})
+	go func() { p9.NewServer(fs).Handle(cb, cb); close(srvDone) }()
+	cl, err := p9.NewClient(ca)
+	defer func() {
+		ca.In.SetCredit(-1)
+		ca.Close()
+		select {
+		case <-srvDone:
+		case <-time.After(10 * time.Second):
+		}
+	}()
 	if err != nil {
 		return failf("harness-dial", "HARNESS-ERROR %v", err)
 	}
-	defer closeFn()
 	root, err := cl.Attach("")
 	if err != nil {
 		return failf("harness-attach", "HARNESS-ERROR %v", err)
@@ -190,7 +204,26 @@ func runClientPairCase(c clientPairCase) *fail {
 				return failf("harness-gate", "HARNESS-ERROR the two calls did not reach the backend (round %d, %s)", r, k)
 			}
 		}
-		fs.ClearGates() // both replies are produced at the same moment
+		// both replies are produced at the same moment and delivered together
+		frozen := ca.In.Written()
+		ca.In.SetCredit(frozen)
+		fs.ClearGates()
+		for dl := time.Now().Add(10 * time.Second); time.Now().Before(dl); time.Sleep(50 * time.Microsecond) {
+			b := ca.In.Slice(frozen, ca.In.Written())
+			frames := 0
+			for len(b) >= 4 {
+				n := int(binary.LittleEndian.Uint32(b))
+				if n < 7 || n > len(b) {
+					break
+				}
+				b = b[n:]
+				frames++
+			}
+			if frames >= 2 {
+				break
+			}
+		}
+		ca.In.SetCredit(-1)
 		var a, b res
 		for i := 0; i < 2; i++ {
 			select {
